@@ -173,13 +173,71 @@ def rand_exon_reference(rng, chrom, n_max=10, isoquant_style=0.4, allow_dup=True
     return feats
 
 
+OTHER_TYPES = ["CDS", "CDS", "UTR", "start_codon", "stop_codon"]      # GeneInfo.OTHER_FEATURES (printed through get_id)
+
+
+def rand_record_reference(rng, chrom, n_max=8, isoquant_style=0.5):
+    """reference records of one chromosome of ALL feature types that carry `exon_id`: the exon records of
+    `rand_exon_reference` (type "exon") and, inside some of them, CDS / UTR / codon records.  GENCODE style: the
+    sub-record repeats the id of the exon it lies in; IsoQuant style (an extended_annotation.gtf written by an earlier
+    run): the sub-interval carries an id of its own (`chr.N` or foreign), never the id of another record."""
+    feats = rand_exon_reference(rng, chrom, n_max, isoquant_style)
+    used = {e["attr"][0] for e in feats if e["attr"]}
+    recs = []
+    for e in feats:
+        recs.append(dict(e, type="exon"))
+        if rng.random() < 0.6:
+            for _ in range(rng.randint(1, 2)):
+                t = rng.choice(OTHER_TYPES)
+                a = e["start"] + rng.choice([0, 0, 3, 5])
+                b = a + 2 if t.endswith("codon") else max(a, e["end"] - rng.choice([0, 0, 2, 4]))
+                k = rng.random()
+                if (a, b) == (e["start"], e["end"]) and k < 0.9:
+                    attr = e["attr"]                 # the whole exon: same interval, same id in either style
+                elif k < 0.15:
+                    attr = None
+                elif k < 0.45:
+                    attr = e["attr"]                 # GENCODE: the id of the containing exon
+                else:
+                    eid = "%s.%d" % (chrom, rng.randint(1, 14)) if rng.random() < 0.75 else "ENSE" + str(rng.randint(1, 40))
+                    if eid in used:
+                        attr = None
+                    else:
+                        used.add(eid)
+                        attr = [eid]
+                recs.append({"start": a, "end": b, "strand": e["strand"], "attr": attr, "type": t})
+    if rng.random() < 0.3:
+        rng.shuffle(recs)
+    return recs
+
+
+def records_gtf(chrom, recs):
+    """GTF text of a record list (one transcript per record: no parent/child structure is needed by id_policy.py)"""
+    lines = []
+    for i, e in enumerate(recs):
+        attr = 'gene_id "G%d"; transcript_id "T%d";' % (i, i)
+        for v in e["attr"] or []:
+            attr += ' exon_id "%s";' % v
+        lines.append("%s\tsyn\t%s\t%d\t%d\t.\t%s\t.\t%s" % (chrom, e.get("type", "exon"), e["start"], e["end"], e["strand"], attr))
+    return "\n".join(lines) + "\n"
+
+
+def real_record_db(chrom, recs):
+    """a REAL gffutils database of the records, created with the options of src/gtf2db.py (complete genedb)"""
+    import gffutils
+    return gffutils.create_db(records_gtf(chrom, recs), ":memory:", from_string=True, force=True, keep_order=True,
+                              merge_strategy="error", sort_attribute_values=True, disable_infer_transcripts=True,
+                              disable_infer_genes=True)
+
+
 def stub_exon_db(chrom, feats, other=None):
     fs = []
     for e in feats:
         attrs = {}
         if e["attr"] is not None:
             attrs["exon_id"] = list(e["attr"])
-        fs.append(StubFeature("exon", "exon_%d_%d" % (e["start"], e["end"]), e["start"], e["end"], e["strand"], attrs))
+        fs.append(StubFeature(e.get("type", "exon"), "%s_%d_%d" % (e.get("type", "exon"), e["start"], e["end"]),
+                              e["start"], e["end"], e["strand"], attrs))
     d = {chrom: fs}
     if other:
         d.update(other)
@@ -300,7 +358,28 @@ def build_scenario(seed, n_chroms=3, genes_per_chrom=4, reads_per_tx=10, isoquan
     return {"ds": ds, "ref_genes": ref_genes, "exon_ids": exon_ids, "hidden": hidden, "chroms": names}
 
 
-def gtf_lines(ref_genes, exon_ids):
+def cds_records(ex, strand):
+    """CDS / codon / UTR intervals of a transcript with exons `ex` (GENCODE layout: the coding part starts inside the
+    first exon and ends inside the last one; inner exons are coding as a whole)"""
+    if len(ex) < 2:
+        return []
+    out = []
+    first, last = ex[0], ex[-1]
+    a = first[0] + (first[1] - first[0]) // 3
+    b = last[1] - (last[1] - last[0]) // 3
+    out.append((first[0], a - 1, "UTR", first))
+    out.append((a, first[1], "CDS", first))
+    out.append((a, a + 2, "start_codon" if strand == "+" else "stop_codon", first))
+    for e in ex[1:-1]:
+        out.append((e[0], e[1], "CDS", e))
+    out.append((last[0], b, "CDS", last))
+    out.append((b - 2, b, "stop_codon" if strand == "+" else "start_codon", last))
+    return out
+
+
+def gtf_lines(ref_genes, exon_ids, cds=False):
+    """`cds`: every second transcript also gets CDS / codon / UTR records which repeat the exon_id of the exon they lie in
+    (as GENCODE does)"""
     out = []
     for g in sorted(ref_genes, key=lambda g: (g["chr"], min(e[0] for _, ex in g["transcripts"] for e in ex))):
         allex = [e for _, ex in g["transcripts"] for e in ex]
@@ -313,14 +392,19 @@ def gtf_lines(ref_genes, exon_ids):
                 eid = exon_ids.get((g["chr"], a, b, g["strand"]))
                 out.append('%s\tsyn\texon\t%d\t%d\t.\t%s\t.\tgene_id "%s"; transcript_id "%s";%s'
                            % (g["chr"], a, b, g["strand"], g["gene_id"], tid, (' exon_id "%s";' % eid) if eid else ""))
+            if cds and (len(tid) + len(ex)) % 2 == 0:
+                for a, b, ft, e in cds_records(ex, g["strand"]):
+                    eid = exon_ids.get((g["chr"], e[0], e[1], g["strand"]))
+                    out.append('%s\tsyn\t%s\t%d\t%d\t.\t%s\t.\tgene_id "%s"; transcript_id "%s";%s'
+                               % (g["chr"], ft, a, b, g["strand"], g["gene_id"], tid, (' exon_id "%s";' % eid) if eid else ""))
     return out
 
 
-def write_scenario(sc, d, read_filter=None):
+def write_scenario(sc, d, read_filter=None, cds=True):
     """writes ref.fa, reads.bam and ann.gtf (the *visible* annotation with exon_id attributes); returns paths"""
     ds = sc["ds"]
     reads = ds.reads if read_filter is None else [r for r in ds.reads if read_filter(r)]
     paths = ds.write(d, reads=reads)
     with open(paths["gtf"], "w") as f:
-        f.write("\n".join(gtf_lines(sc["ref_genes"], sc["exon_ids"])) + "\n")
+        f.write("\n".join(gtf_lines(sc["ref_genes"], sc["exon_ids"], cds=cds)) + "\n")
     return paths
